@@ -67,7 +67,7 @@ def record_chunk(chunk):
             events = [{"ev": "Raised", "what": "%s: %s" % (type(ex).__name__, str(ex)[:200])}]
         cfg = dict(kind="epochs", monitor="train", patience=0, mindelta=0, epochs=1, L=L, B=B, keyed=key is not None,
                    hasval=False, LV=B, start="batching")
-        out.append({"tid": tid, "cfg": cfg, "events": events, "n_mi": n_mi, "ndev": ndev})
+        out.append({"tid": tid, "cfg": cfg, "events": events, "n_mi": n_mi, "ndev": ndev, "keyseed": keyseed})
     return out
 
 
@@ -162,14 +162,18 @@ def main(tier):
             chk.spec_violation(r, "training-loop design invariant fails in the specification")
     # ---- recorded get_batches calls ----------------------------------------------------------------
     maxL = 8 if tier == "quick" else 12
+    # keys: a defect that shows only for particular drawn permutations (e.g. a slicing shortcut taken when a shuffled batch
+    # happens to start and end B-1 apart) shows in a few percent of the epochs, so B >= 3 gets many keys on one device
     nkeys = 3 if tier == "quick" else 8
+    nkeys_b3 = 12 if tier == "quick" else 30
     items, tid = [], 0
     rng = random.Random(core.SEED + 17)
     for L in range(1, maxL + 1):
         for B in range(1, L + 1):
-            for keyseed in [None] + [rng.randint(0, 10 ** 6) for _ in range(nkeys)]:
+            keys = [rng.randint(0, 10 ** 6) for _ in range(nkeys_b3 if B >= 3 else nkeys)]
+            for ki, keyseed in enumerate([None] + keys):
                 for ndev in [d for d in (1, 2, 3, 4) if B % d == 0]:
-                    if ndev > 1 and keyseed is not None and tier == "quick" and rng.random() < 0.5:
+                    if ndev > 1 and ki > (1 if tier == "quick" else 4):
                         continue
                     tid += 1
                     items.append((tid, L, B, 1 + tid % 3, keyseed, ndev))
@@ -249,7 +253,7 @@ def main(tier):
                        payload={"trace": {"cfg": t["cfg"], "events": t["events"], "train": True}})
     chk.samples.append({"cfg": etraces[3]["cfg"], "events": [{k: e[k] for k in e if k != "obs"} for e in etraces[3]["events"]]})
     chk.exhaustive = True
-    chk.extra["bounds"] = {"L<=": maxL, "keys": nkeys, "device_counts": [1, 2, 3, 4]}
+    chk.extra["bounds"] = {"L<=": maxL, "keys": nkeys, "keys_B>=3": nkeys_b3, "device_counts": [1, 2, 3, 4]}
     chk.assumptions = ["TLC/SANY/Json trusted", "the sandbox has one CPU device; device counts are exercised through a list of "
                        "n handles to it (get_batches only uses its length)", "keys sampled, (L,B) exhaustive up to the bound"]
     return chk.finish()
@@ -270,7 +274,7 @@ def replay(path):
         return 1 if v[0] == "REJECT" else 0
     # re-record with the same shape parameters (keys are re-drawn: the property quantifies over all keys)
     fails = 0
-    for ks in (None, 1, 2, 3):
+    for ks in ([t["keyseed"]] if t.get("keyseed") is not None else []) + [None, 1, 2, 3]:     # the recorded key first, then fresh ones
         if (ks is None) != (not c["keyed"]):
             continue
         tr = record_chunk([(t["tid"], c["L"], c["B"], t["n_mi"], ks, t["ndev"])])[0]
